@@ -564,19 +564,29 @@ def _run_multi(case):
     import nifty.cl as ift
     keys, vals = case["keys"], case["vals"]
     perms = list(itertools.permutations(range(len(keys))))
-    first = None
     size = sum(int(np.prod([R.ref_geom(s)["size"] for s in v])) if v else 1 for v in vals)
-    for p in perms:
-        for form in ("raw", "dt"):
-            d = {}
-            for i in p:
-                doms = tuple(R.build(s) for s in vals[i])
-                d[keys[i]] = ift.DomainTuple.make(doms) if form == "dt" else (doms[0] if len(doms) == 1 else doms)
-            md = ift.MultiDomain.make(d)
-            if first is None:
-                first = md
-            _req(md is first, "MultiDomain|equal-description-not-identical|order=%s" % ("same" if p == perms[0] else "permuted"),
-                 "make(%s, %s values) is not the first object" % ([keys[i] for i in p], form))
+    saved = dict(ift.MultiDomain._domainCache)
+    try:
+        for p0 in perms:                       # every insertion order comes first once, on a cold MultiDomain cache
+            ift.MultiDomain._domainCache.clear()
+            first = None
+            for p in [p0] + perms:
+                for form in ("raw", "dt"):
+                    d = {}
+                    for i in p:
+                        doms = tuple(R.build(s) for s in vals[i])
+                        d[keys[i]] = ift.DomainTuple.make(doms) if form == "dt" else (doms[0] if len(doms) == 1 else doms)
+                    md = ift.MultiDomain.make(d)
+                    if first is None:
+                        first = md
+                    _req(md is first, "MultiDomain|equal-description-not-identical|order=%s" % ("same" if p == p0 else "permuted"),
+                         "make(%s, %s values) is not the first object" % ([keys[i] for i in p], form))
+            _req(tuple(first.keys()) == tuple(sorted(keys)), "MultiDomain|keys-not-sorted",
+                 "keys %s after insertion order %s" % (first.keys(), [keys[i] for i in p0]))
+    finally:
+        ift.MultiDomain._domainCache.clear()
+        ift.MultiDomain._domainCache.update(saved)
+    first = ift.MultiDomain.make({keys[i]: tuple(R.build(s) for s in vals[i]) for i in perms[-1]})
     md = first
     _req(tuple(md.keys()) == tuple(sorted(keys)), "MultiDomain|keys-not-sorted", "%s" % (md.keys(),))
     for k, v in zip(keys, vals):
@@ -589,7 +599,7 @@ def _run_multi(case):
     _req(md2 is md, "MultiDomain|pickle-not-identical", "unpickled MultiDomain is a different object")
     _req(ift.MultiDomain.make(md) is md and hash(md2) == hash(md) and md == md2 and not md != md2, "MultiDomain|eq-hash", "inconsistent")
     return ok(nontrivial=len(keys) >= 1, outcome="multi|n=%d|orders=%d" % (len(keys), len(perms)),
-              stats=dict(multi_makes=2 * len(perms)))
+              stats=dict(multi_makes=2 * len(perms) * (len(perms) + 1)))
 
 
 def _run_eqhash(case):
